@@ -165,9 +165,15 @@ func genC10(t *rapid.T) *Case {
 	nd := rapid.IntRange(1, 3).Draw(t, "ndocs")
 	for i := 0; i < nd; i++ {
 		var page string
-		if rapid.IntRange(0, 3).Draw(t, "dk") == 0 {
+		switch rapid.IntRange(0, 7).Draw(t, "dk") {
+		case 0, 1:
 			page = genPager(t).HTML
-		} else {
+		case 2:
+			// markup the metadata parsers read on the caller's own tree (before the converter clones
+			// it), with script/style elements inside the elements whose text they take
+			page = strings.Replace(genC14(t).HTML, "</body>", `<div itemscope itemtype="http://schema.org/Article"><span itemprop="author">Jane Doe<script>var a=1</script></span>`+
+				`<h2 itemprop="headline">Some <style>h2{}</style>headline</h2><div itemprop="articleBody"><style>p{margin:0}</style>body text<script>var b=2</script></div></div></body>`, 1)
+		default:
 			page = newG(t, rewriteProfile()).page()
 		}
 		d := c10Doc{HTML: page, Root: rapid.SampledFrom([]string{"document", "html", "sub", "detached", "document"}).Draw(t, "root")}
@@ -185,6 +191,10 @@ func genC10(t *rapid.T) *Case {
 		o.Nil = false
 		if o.URL != "" && rapid.IntRange(0, 3).Draw(t, "userinfo") == 0 {
 			o.URL = strings.Replace(o.URL, "://", "://user:secret@", 1)
+		}
+		if rapid.IntRange(0, 7).Draw(t, "oddurl") == 0 {
+			// page URLs a caller may well hand over: a local file, a relative URL
+			o.URL = rapid.SampledFrom([]string{"file:///home/user/saved/page.html", "/story/1", "story/1?page=2", "//example.com/x"}).Draw(t, "oddurlv")
 		}
 		ex.Opts = append(ex.Opts, o)
 	}
